@@ -19,6 +19,66 @@
 
 static char base[300];
 
+/* strictly bounded records: each side writes `n` bytes and flushes, the transport runs until they are read */
+static int
+exchange(tp_pair *p, size_t n, int rounds)
+{
+	int k, side;
+	for (k = 0; k < rounds; k ++) for (side = 0; side < 2; side ++) {
+		tp_ep *tx = side == 0 ? &p->c : &p->s, *rx = side == 0 ? &p->s : &p->c;
+		size_t want = rx->rx_done + n, l;
+		long guard = 0;
+		if (tp_act_write(tx, n) != n) return 0;
+		tp_act_flush(tx, 0);
+		while (rx->rx_done < want && guard ++ < 100000) {
+			if (tp_ep_closed(&p->c) || tp_ep_closed(&p->s)) return 0;
+			if (br_ssl_engine_recvapp_buf(rx->eng, &l)) { tp_act_read(rx, l); continue; }
+			if (!tp_pump_step(p)) return 0;
+		}
+		if (rx->rx_done < want || rx->rx_bad) return 0;
+	}
+	return 1;
+}
+
+/*
+ * A server with minimum-size buffers cannot tell its peer: a full-size client sends it handshake
+ * records (here a certificate chain, client authentication) larger than the whole input buffer. They
+ * are not encrypted yet and must be taken in pieces, every offered region staying inside the buffer.
+ */
+static void
+small_server_big_client(long long seed, int layout, size_t in_len, size_t out_len, uint16_t suite, unsigned version, int cauth)
+{
+	tp_pair p;
+	tp_cfg cc, sc;
+	uint16_t sl[1];
+	char what[240];
+	tp_cfg_default(&cc, 0); tp_cfg_default(&sc, 1);
+	sc.layout = layout; sc.buflen = in_len; sc.buflen_out = out_len;
+	sl[0] = suite; cc.suites = sl; cc.nsuites = 1; cc.vmin = cc.vmax = version;
+	sc.keykind = tp_key_for_suite(tp_suite_find(suite), 0);
+	cc.client_auth = cauth; sc.client_auth = 1;
+	memset(cc.seed, 0x17, 32); memset(sc.seed, 0x71, 32);
+	snprintf(tp_case, sizeof tp_case, "%s small-server layout=%d in=%zu out=%zu full-size client with client certificate kind %d suite=%04x ver=%04x",
+		base, layout, in_len, out_len, cauth, suite, version);
+	tp_pair_init(&p, (uint64_t)seed, 17, TP_CHUNK_WHOLE);
+	p.c.tx_key = 0x1717; p.s.tx_key = 0x7171; p.c.rx_key = p.s.tx_key; p.s.rx_key = p.c.tx_key;
+	vf_stat("small_server_cases", 1);
+	if (!tp_ep_start(&p.c, &cc) || !tp_ep_start(&p.s, &sc)) { TP_VIOL("tiny:minimum-size-refused", "reset failed with buffers at the documented minimum"); tp_pair_free(&p); return; }
+	if (!tp_handshake(&p, 1000000)) {
+		snprintf(what, sizeof what, "handshake incomplete: client state=%u err=%d, server state=%u err=%d", br_ssl_engine_current_state(p.c.eng),
+			br_ssl_engine_last_error(p.c.eng), br_ssl_engine_current_state(p.s.eng), br_ssl_engine_last_error(p.s.eng));
+		TP_VIOL("tiny:small-server-handshake-failed", what);
+	} else if (!exchange(&p, 300, 3)) {
+		snprintf(what, sizeof what, "data phase failed: c rx=%zu err=%d; s rx=%zu err=%d", (size_t)p.c.rx_done, br_ssl_engine_last_error(p.c.eng),
+			(size_t)p.s.rx_done, br_ssl_engine_last_error(p.s.eng));
+		TP_VIOL("tiny:small-server-stream-incomplete", what);
+	} else {
+		vf_stat("small_server_sessions", 1);
+		vf_max("small_server_largest_incoming_handshake_bytes", (long long)p.s.bytes_in);
+	}
+	tp_pair_free(&p);
+}
+
 static void
 one(long long seed, int role, int layout, size_t in_len, size_t out_len, uint16_t suite, unsigned version)
 {
@@ -132,6 +192,15 @@ main(int argc, char **argv)
 			uint16_t su = suites[(i + 2 + (size_t)seed) % 5];
 			if ((idx ++ % nworkers) != worker) continue;
 			one(seed, role, TP_LAYOUT_SPLIT1, bidi[i], 0, su, su == 0x002F ? 0x0301 : 0x0303);
+		}
+	}
+	/* minimum-size servers facing a full-size client that authenticates with a certificate */
+	for (i = 0; i < 3; i ++) for (j = 0; j < 5; j ++) {
+		int lay = (int)i, ca;
+		size_t il = lay == TP_LAYOUT_SPLIT1 ? 512 + 325 + 512 + 85 : 512 + 325, ol = 512 + 85;
+		if ((idx ++ % nworkers) != worker) continue;
+		for (ca = 1; ca <= 2; ca ++) {
+			small_server_big_client(seed, lay, il + (size_t)((seed + (long long)j) % 3), ol, suites[j], suites[j] == 0x002F ? 0x0301 : 0x0303, ca);
 		}
 	}
 	vf_stat("cases", vf_cnt_[vf_cnt_find_("tiny_cases", 0)].v);
